@@ -122,7 +122,11 @@ def check_masked(run, drv, pending, base, region, cells, flags, orc, pts, ans, o
         run.oracle_failure(case, f"masked region has a {nx2} x {ny2} bounding box, its cells span "
                                  f"{max(c[0] for c in ncells) + 1} x {max(c[1] for c in ncells) + 1} lattice positions")
         return
-    norc = c01.Oracle(new, ncells, [1] * len(kept))
+    # `masked_region` hands no mask on (every kept cell is active in the new region); a tree that carries the flags of the kept
+    # cells over is accepted as well — the property fixes the partition of the region AS BUILT, judged on its own flags
+    npm = getattr(new, "poly_mask", None)
+    nflags = [1] * len(kept) if npm is None else [1 if m == 1 else 0 for m in npm]
+    norc = c01.Oracle(new, ncells, nflags)
     lons = numpy.array([p[0] for p in pts])
     lats = numpy.array([p[1] for p in pts])
     try:
@@ -145,7 +149,7 @@ def check_masked(run, drv, pending, base, region, cells, flags, orc, pts, ans, o
             if d4:
                 sx = {0} if (nx2 == 1 and fx >= norc.ax.top) else norc.ax.allowed(p[0])[0]
                 sy = {0} if (ny2 == 1 and fy >= norc.ay.top) else norc.ay.allowed(p[1])[0]
-                d4 = a in {norc.at(i, j) for i in sx for j in sy}
+                d4 = a in set().union(*[norc.at_set(i, j) for i in sx for j in sy])
             run.count("known-D4" if d4 else "ORACLE-FAIL-masked")
             if fails < 3:
                 run.oracle_failure(dict(case, points=[[repr(p[0]), repr(p[1])]]),
@@ -166,6 +170,10 @@ def check_masked(run, drv, pending, base, region, cells, flags, orc, pts, ans, o
         # the kept polygons listed at that position (masked_region drops the mask: every kept polygon is active)
         at_pos = [kk for kk in kept if cells[kk] == (ex, ey)] if owner is not None else []
         exp = pos_of[at_pos[-1]] if at_pos else "o"
+        if exp != "o" and nflags[exp] != 1:
+            exp = "o"        # (a carried-over flag)
+        if len(at_pos) > 1 and a in {pos_of[kk] for kk in at_pos}:
+            continue         # the position is listed several times: any of its kept polygons (see Oracle.at_set)
         if (nx2 == 1 or ny2 == 1) and a != exp:
             continue      # single row / column: D4 (already judged by the new region's own oracle above)
         if a != exp and fails < 3:
@@ -183,7 +191,7 @@ def check_masked(run, drv, pending, base, region, cells, flags, orc, pts, ans, o
     # the model builds its polygons with compute_vertex(origin, dh): only for regions whose polygons are made that way
     line = " ".join(["c01_masked", ",".join(frac(v) for v in org[:, 0]), ",".join(frac(v) for v in org[:, 1]), frac(float(region.dh)),
                      ",".join("1" if c else "0" for c in contains),
-                     str(c01.num_decimals(norg[:, 0].min())), str(c01.num_decimals(norg[:, 1].min())), str(c01.num_decimals(region.dh))])
+                     "auto", "auto", "auto"])     # round 4: the decimals are computed by the model
     q = drv.ask(line)
     pending.append(dict(kind="ops-masked", q=q, case=case, xs=[_F(v) for v in new.xs], ys=[_F(v) for v in new.ys],
                         hash=[f"{int(a)}:{int(b)}" for a, b in zip(hx, hy)], kept=kept))
@@ -234,15 +242,18 @@ def check_eq_cartesian(run, base, spec, region, cells, flags, orc, orng, seed):
             for i in range(nx):
                 k = orc.at(i, j)
                 v = g[j, i]
+                S = orc.at_set(i, j)        # (a lattice position listed several times: any of its polygons, see Oracle.at_set)
+                if len(S) > 1 and ((math.isnan(v) and "o" in S) or any(a != "o" and float(d[a]) == float(v) for a in S)):
+                    continue
                 if (k == "o") != bool(math.isnan(v)) or (k != "o" and float(d[k]) != float(v)):
                     run.oracle_failure(case, f"get_cartesian({fname})[{j}, {i}] = {v!r}; the partition puts polygon {k!r} there "
                                              f"(datum {None if k == 'o' else float(d[k])!r})")
                     return
-    try:
+    try:        # a data vector of the wrong length is outside the property: rejected today (assert); observed, not judged
         region.get_cartesian(numpy.zeros(n + 1))
-        run.oracle_failure(case, f"get_cartesian accepted a data vector of length {n + 1} for {n} polygons")
-    except (AssertionError, ValueError, IndexError):
-        pass
+        run.count("get_cartesian: data vector of the wrong length accepted (not judged)")
+    except Exception:
+        run.count("get_cartesian: data vector of the wrong length rejected")
     # __eq__: a region equals a region rebuilt from its origins and dh; equal regions (no mask) are the same partition;
     # different origins or spacing are never equal
     if spec.get("kind") == "shipped" or n > 400:
@@ -256,7 +267,9 @@ def check_eq_cartesian(run, base, spec, region, cells, flags, orc, orng, seed):
             perm = org[::-1].copy()
             other = CartesianGrid2D.from_origins(perm, dh=region.dh, name=region.name)
             # reversed polygon order: other indices — equal only if the origin lists coincide
-            ne.append(("reversed polygon order", other, bool(numpy.array_equal(perm, org))))
+            # (whether `==` looks at the ORDER of the cells is not the property's business: the same cells in another order are the
+            # same partition with other indices — either verdict is accepted unless the lists coincide)
+            ne.append(("reversed polygon order", other, True if numpy.array_equal(perm, org) else None))
         shifted = org + numpy.array([float(region.dh), 0.0])
         ne.append(("origins shifted by one cell", CartesianGrid2D.from_origins(shifted, dh=region.dh, name=region.name), False))
         if n > 1:
@@ -268,9 +281,13 @@ def check_eq_cartesian(run, base, spec, region, cells, flags, orc, orng, seed):
     if not eq:
         run.oracle_failure(case, "a region does not compare equal to the region rebuilt from its own origins, dh and name")
     for what, a, b, expect in res:
+        if expect is None:
+            if a != b:
+                run.oracle_failure(case, f"region == region with {what} is not symmetric: {a} / {b}")
+            continue
         if a != expect or b != expect:
             run.oracle_failure(case, f"region == region with {what} is {a} / {b} (expected {expect})")
-    if region.poly_mask is None:
+    if getattr(region, "poly_mask", None) is None and spec.get("mask") is None:
         if not (numpy.array_equal(twin.xs, region.xs) and numpy.array_equal(twin.ys, region.ys) and
                 numpy.array_equal(twin.bbox_mask, region.bbox_mask) and
                 numpy.array_equal(numpy.nan_to_num(twin.idx_map, nan=-1.0), numpy.nan_to_num(region.idx_map, nan=-1.0))):
@@ -313,8 +330,10 @@ def check_incres(run, drv, pending, base, spec, region, cells, orng, seed):
     rec = dict(kind="ops-incres", q=q, case=dict(case, factor=factor, form=form), res=res, out=None)
     pending.append(rec)
     if not valid:
-        if res != "AssertionError":
-            run.oracle_failure(rec["case"], f"increase_grid_resolution(factor={factor}) gave {res}; the factor must be a power of two (AssertionError)")
+        # a factor that is no power of two is outside the documented domain ("must be a multiple of 2"): the code asserts; any
+        # rejection (AssertionError, ValueError, …) is accepted, and so is a tree that handles such a factor (not judged)
+        rec["invalid"] = True
+        run.count("increase_grid_resolution: invalid factor " + ("rejected" if res != "ok" else "handled (not judged)"))
         return
     if res != "ok":
         run.oracle_failure(rec["case"], f"increase_grid_resolution(factor={factor}) raised {res}")
@@ -342,6 +361,12 @@ def check_incres(run, drv, pending, base, spec, region, cells, orng, seed):
         return
     # the refined region: every fine cell's midpoint lies in its parent cell of the coarse region, factor^2 per parent
     # (theorem refinement_partition), and is attributed to the fine cell itself
+    from . import c01 as _c01
+    if _c01._displaced_class(float(a[:, 0].min()), float(ndh)) or _c01._displaced_class(float(a[:, 1].min()), float(ndh)) or \
+            _c01._displaced_class(float(pts[:, 0].min()), float(dh)) or _c01._displaced_class(float(pts[:, 1].min()), float(dh)):
+        # AWAITING_DECISION_BUILD[0] of harness/c01.py (noisy spacing, coarse anchor): observed, not enforced
+        run.count("awaiting-decision: refined region with a noisy spacing and a coarse anchor (cleaner_range fallback displaces the grid)")
+        return
     try:
         fine = CartesianGrid2D.from_origins(a.copy(), dh=ndh)
         coarse = CartesianGrid2D.from_origins(pts.copy(), dh=dh)
@@ -395,18 +420,18 @@ def check_incres(run, drv, pending, base, spec, region, cells, orng, seed):
         try:
             g = float(grid_spacing([v0, v1]))
             got = "dh" if abs(g - dh) <= REL * max(1.0, abs(dh)) else repr(g)
-        except ValueError:
-            got = "ValueError"
-        except Exception as e:
-            got = "EXC:" + type(e).__name__
+        except Exception:
+            got = "ValueError"       # any rejection of a degenerate / non-square step counts as the documented ValueError
         if got != expect:
             run.oracle_failure(dict(case, what="ops:grid_spacing"), f"grid_spacing({what}: {v0!r}, {v1!r}) gave {got}, expected {expect} (dh={dh!r})")
 
 
 def flush_incres(run, rec, line):
     from . import c01
+    if rec.get("invalid"):
+        return            # outside the documented domain: nothing to compare
     if line == "AssertionError" or rec["res"] != "ok":
-        if (line == "AssertionError") != (rec["res"] == "AssertionError"):
+        if (line == "AssertionError") != (rec["res"] != "ok"):
             run.mismatch(rec["case"], rec["res"], line[:100])
         return
     toks = line.split(" ")
@@ -477,6 +502,7 @@ def check_filter_sessions(run, drv, pending, base, spec, region, cells, flags, o
             continue
         cur = list(range(len(ev)))      # oracle: event numbers currently in `cat`
         cur_reg = bound
+        quirk = False
         impl = []
         ok = True
         for op in ops:
@@ -504,14 +530,14 @@ def check_filter_sessions(run, drv, pending, base, spec, region, cells, flags, o
             self_ids = [int(i) for i in cat.get_event_ids()]
             out_ids = [int(i) for i in out.get_event_ids()]
             exp_self = surv if ip else cur
-            which = "a" if cat.region is regs["a"] else ("b" if cat.region is regs["b"] else "?")
+            which = "a" if cat.region is regs["a"] else ("b" if cat.region is regs["b"] else ("n" if cat.region is None else "?"))
             whicho = "a" if out.region is regs["a"] else ("b" if out.region is regs["b"] else "?")
             problem = None
             if out_ids != surv:
                 problem = f"returned catalog holds events {out_ids[:20]}, the events inside region {eff} are {surv[:20]}"
             elif self_ids != exp_self:
                 problem = f"the catalog itself holds events {self_ids[:20]} afterwards, expected {exp_self[:20]} (in_place={ip})"
-            elif which != eff or whicho != eff:
+            elif whicho != eff or (which != eff and not ((not ip) and r != "n" and which == cur_reg)):
                 problem = f"region bound afterwards: catalog {which}, returned catalog {whicho}; expected {eff}"
             elif ip and out is not cat:
                 problem = "in_place=True did not return the catalog itself"
@@ -537,7 +563,16 @@ def check_filter_sessions(run, drv, pending, base, spec, region, cells, flags, o
             impl.append((exp_self, eff, surv, us))
             if ip:
                 cur = surv
-            cur_reg = eff
+            if which != eff:
+                # in_place=False with a region argument: the current code re-binds the CALLER's catalog to the argument too (although
+                # the docstring says "preserving state"); a tree that leaves the caller's binding alone is accepted — the property
+                # fixes which events the RETURNED catalog holds and that an in-place call binds. The session goes on with the binding
+                # the object really has; the state-machine model (which re-binds) is then not compared.
+                quirk = True
+                run.count("filter_spatial(in_place=False, region=R) left the caller's binding alone (accepted)")
+                cur_reg = which
+            else:
+                cur_reg = eff
         if not ok:
             continue
         # the survivors can be counted: spatial_counts after filtering never raises (theorem filter_then_lookup_total)
@@ -556,6 +591,8 @@ def check_filter_sessions(run, drv, pending, base, spec, region, cells, flags, o
                          ",".join(str(1 if f == 1 else 0) for f in flags), ",".join(str(f) for f in maskB),
                          ",".join(frac(p[0]) for p in ev) if ev else "-", ",".join(frac(p[1]) for p in ev) if ev else "-",
                          bound, "1" if cstats else "0", ";".join(ops)])
+        if quirk:
+            continue
         q = drv.ask(line)
         pending.append(dict(kind="ops-filter", q=q, case=case, impl=impl, ev=ev,
                             same=[1 if f == 1 else 0 for f in flags] == maskB))
@@ -604,7 +641,7 @@ def _snap(region):
         return (a.shape, str(a.dtype), numpy.nan_to_num(a.astype(float), nan=-12345.0).tobytes())
     try:
         return (b(region.xs), b(region.ys), b(region.bbox_mask), b(region.idx_map), float(region.dh), len(region.polygons),
-                None if region.poly_mask is None else tuple(int(m) for m in region.poly_mask),
+                None if getattr(region, "poly_mask", None) is None else tuple(int(m) for m in region.poly_mask),
                 None if region.magnitudes is None else b(region.magnitudes), b(region.bounds),
                 tuple(id(q) for q in region.polygons[:50]))
     except Exception as e:     # a region that lost an attribute has changed
@@ -720,8 +757,17 @@ def check_shared_session(run, drv, pending, base, spec, region, cells, flags, or
                     out_ids = [int(i) for i in out.get_event_ids()]
                     if out_ids != surv:
                         return fail(f"the returned catalog holds events {out_ids[:25]}; the events inside region {eff} are {surv[:25]}", step)
-                    if out.region is not regs[eff] or c["obj"].region is not regs[eff]:
+                    kept_binding = (not ip) and r != "n" and c["reg"] != eff and \
+                        (c["obj"].region is (regs[c["reg"]] if c["reg"] != "n" else None))
+                    if out.region is not regs[eff] or (c["obj"].region is not regs[eff] and not kept_binding):
                         return fail(f"the region bound afterwards is not the effective region {eff} (argument wins, else the bound one)", step)
+                    if kept_binding:
+                        # in_place=False left the caller's binding alone ("preserving state"): accepted, see check_filter_sessions
+                        run.count("filter_spatial(in_place=False, region=R) left the caller's binding alone (accepted)")
+                        c["lean"] = None
+                        if len(cats) < 5:
+                            cats.append(dict(obj=out, ids=list(surv), reg=eff, lean=None))
+                        continue
                     if ip != (out is c["obj"]):
                         return fail(f"in_place={ip} but returned-object-is-self={out is c['obj']}", step)
                     if us:
@@ -863,11 +909,13 @@ def check_nonfinite(run, base, region, orc, pts, ans, orng, seed):
                     run.oracle_failure(dict(case, points=[[repr(bad[0]), repr(bad[1])]]),
                                        f"get_masked of [inside point, {name}, inside point] is {m}; no cell contains {name}, the inside point is in cell {ans[k0]}")
                     return
-            elif enforced or res != "IndexError":
+            elif enforced:
                 run.oracle_failure(dict(case, points=[[repr(bad[0]), repr(bad[1])]]), f"get_masked with the point {name} raised {res}")
                 return
             else:
-                run.count("awaiting-decision: NaN / -inf coordinate raises IndexError instead of being reported outside")
+                # NaN / -inf: awaiting decision. The current code raises IndexError; any rejection is accepted, an ATTRIBUTION is not
+                run.count("awaiting-decision: NaN / -inf coordinate raises " + ("IndexError" if res == "IndexError" else "an exception")
+                          + " instead of being reported outside")
                 continue
             try:
                 idx = region.get_index_of(numpy.array([bad[0]]), numpy.array([bad[1]]))
@@ -876,15 +924,16 @@ def check_nonfinite(run, base, region, orc, pts, ans, orng, seed):
             except ValueError:
                 pass
             except Exception as e:
-                run.oracle_failure(dict(case, points=[[repr(bad[0]), repr(bad[1])]]), f"get_index_of({name}) raised {type(e).__name__} instead of ValueError")
-                return
+                if enforced:
+                    run.oracle_failure(dict(case, points=[[repr(bad[0]), repr(bad[1])]]), f"get_index_of({name}) raised {type(e).__name__} instead of ValueError")
+                    return
             try:
                 cat = CSEPCatalog(data=[(str(i), 1000 * i, float(lat[i]), float(lon[i]), 10.0, 5.0) for i in range(3)], region=region)
                 cat.filter_spatial()
                 ids = [int(i) for i in cat.get_event_ids()]
             except Exception as e:
                 ids = "EXC:" + type(e).__name__
-            if ids != [0, 2]:
+            if ids != [0, 2] and not (isinstance(ids, str) and not enforced):
                 run.oracle_failure(dict(case, points=[[repr(bad[0]), repr(bad[1])]]), f"filter_spatial of [inside, {name}, inside] kept {ids!r}, expected [0, 2]")
                 return
 
@@ -903,7 +952,14 @@ def check_big_catalog(run, base, region, cells, flags, orc, pts, ans, exact_only
         return
     hot = orng.choice(ins)
     ntot = 65536 + orng.randint(1000, 9000)
-    ids = numpy.array([hot] * (65536 + orng.randint(1, 500)) + [orng.choice(pool) for _ in range(600)])
+    outs = [k for k in pool if ans[k] == "o"]
+    if outs and orng.random() < 0.5:
+        # the heavy class is OUTSIDE the region: more than 2^16 events that no cell contains (all sides, holes, flagged-out cells)
+        # among a few thousand inside ones
+        ids = numpy.array([orng.choice(outs) for _ in range(65536 + orng.randint(1, 500))] + [orng.choice(pool) for _ in range(600)])
+        run.count("ops:big-catalog: more than 2^16 events OUTSIDE the region")
+    else:
+        ids = numpy.array([hot] * (65536 + orng.randint(1, 500)) + [orng.choice(pool) for _ in range(600)])
     ids = numpy.concatenate([ids, numpy.array([orng.choice(ins) for _ in range(max(1, ntot - len(ids)))])])
     rs = numpy.random.default_rng(orng.randrange(2 ** 32))
     ids = rs.permutation(ids)
@@ -945,11 +1001,91 @@ def check_big_catalog(run, base, region, cells, flags, orc, pts, ans, exact_only
         run.oracle_failure(case, f"catalog of {len(ids)} events: {type(e).__name__}: {str(e)[:150]}")
 
 # ------------------------------------------------------------------------------------------------- entry points
+def check_aftershock(run, base, region, cells, seed):
+    """regions.py:394 `generate_aftershock_region(mw, lon, lat, num_radii, region=callable, **kwargs)`: the public entry point that
+    composes the Wells-Coppersmith rupture length, `Polygon.from_great_circle_radius` (100 points) and `masked_region`. Oracles:
+    the keyword arguments reach the region callable; the result holds exactly the cells whose midpoint the circle polygon contains
+    (`masked_region` composition: the very polygon objects, in order, no mask, same dh); geometry with a margin: a cell whose
+    midpoint is within 0.97 R of the epicentre (WGS84 geodesic) is kept, one beyond 1.03 R is dropped; the new region attributes
+    every kept midpoint to its cell. Only for regions in geographic range (|lat| <= 80)."""
+    import random as _random
+    import pyproj
+    from csep.core.regions import generate_aftershock_region, masked_region, CartesianGrid2D
+    from csep.models import Polygon
+    from csep.utils.scaling_relationships import WellsAndCoppersmith
+    orng = _random.Random(seed ^ 0xAF7E)
+    xs, ys = numpy.asarray(region.xs, dtype=float), numpy.asarray(region.ys, dtype=float)
+    dh = float(region.dh)
+    if len(xs) < 2 or len(ys) < 2 or xs[0] < -179 or xs[-1] + dh > 179 or ys[0] < -80 or ys[-1] + dh > 80 or len(region.polygons) > 5000:
+        run.count("ops:aftershock_region-not-geographic (skipped)")
+        return
+    mids = numpy.asarray(region.midpoints(), dtype=float)
+    k0 = orng.randrange(len(mids))
+    lon0, lat0 = float(mids[k0, 0]) + orng.uniform(-0.2, 0.2) * dh, float(mids[k0, 1]) + orng.uniform(-0.2, 0.2) * dh
+    mw = orng.choice([5.0, 5.95, 6.5, 7.2])
+    length_m = WellsAndCoppersmith.mag_length_strike_slip(mw) * 1000
+    want_m = orng.uniform(1.2, 3.5) * dh * 111000.0 * max(0.2, math.cos(math.radians(lat0)))
+    num_radii = want_m / length_m
+    if orng.random() < 0.3:
+        num_radii = max(1, int(round(num_radii)))
+    R = num_radii * length_m
+    got_kw = {}
+
+    def factory(**kw):
+        got_kw.update(kw)
+        return region
+    kw = orng.choice([{}, dict(name="aftershock-zone"), dict(dh_scale=1, name="x")])
+    case = dict(base, points=[], what="ops:aftershock_region", ops_seed=seed, epicentre=[repr(lon0), repr(lat0)], mw=mw, num_radii=repr(num_radii))
+    run.case(None, None)
+    run.count("ops:aftershock_region")
+    try:
+        poly = Polygon.from_great_circle_radius((lon0, lat0), R, num_points=100)
+        contains = numpy.asarray(poly.contains(mids)).astype(bool)
+    except Exception as e:
+        run.oracle_failure(case, f"Polygon.from_great_circle_radius / contains raised {type(e).__name__}: {e}")
+        return
+    if not contains.any():
+        run.count("ops:aftershock_region-nothing-kept (an empty region cannot be built: skipped)")
+        return
+    try:
+        new = generate_aftershock_region(mw, lon0, lat0, num_radii=num_radii, region=factory, **kw)
+    except Exception as e:
+        run.oracle_failure(case, f"generate_aftershock_region raised {type(e).__name__}: {e}")
+        return
+    if got_kw != kw:
+        run.oracle_failure(case, f"keyword arguments {kw!r} reached the region callable as {got_kw!r}")
+        return
+    kept = [k for k in range(len(mids)) if contains[k]]
+    if not isinstance(new, CartesianGrid2D) or len(new.polygons) != len(kept) or \
+            any(new.polygons[a] is not region.polygons[k] for a, k in enumerate(kept)) or float(new.dh) != dh:
+        run.oracle_failure(case, f"generate_aftershock_region returned {len(getattr(new, 'polygons', []))} cells; the circle polygon contains "
+                                 f"{len(kept)} cell midpoints (result must be masked_region(region, circle): those polygons, in order)")
+        return
+    geod = pyproj.Geod(ellps="WGS84")
+    _, _, dist = geod.inv(numpy.full(len(mids), lon0), numpy.full(len(mids), lat0), mids[:, 0], mids[:, 1])
+    wrong = [k for k in range(len(mids)) if (dist[k] <= 0.97 * R and not contains[k]) or (dist[k] >= 1.03 * R and contains[k])]
+    if wrong:
+        k = wrong[0]
+        run.oracle_failure(case, f"cell {k} (midpoint {mids[k].tolist()!r}, {dist[k]:.0f} m from the epicentre) is "
+                                 f"{'kept' if contains[k] else 'dropped'}; radius {R:.0f} m")
+        return
+    if len(new.xs) >= 2 and len(new.ys) >= 2:
+        nm = numpy.asarray(new.midpoints(), dtype=float)
+        try:
+            own = new.get_index_of(nm[:, 0], nm[:, 1])
+        except Exception as e:
+            run.oracle_failure(case, f"the aftershock region does not contain its own midpoints: {type(e).__name__}: {e}")
+            return
+        if not numpy.array_equal(own, numpy.arange(len(nm))):
+            k = int(numpy.argmax(own != numpy.arange(len(nm))))
+            run.oracle_failure(case, f"midpoint of cell {k} of the aftershock region is attributed to cell {int(own[k])}")
+
+
 def check_ops(run, drv, pending, spec, base, region, cells, flags, orc, rng, pts, ans, exact_only, case_seed=None, only=None):
     seed, orng = _ops_rng(rng, case_seed)
     n = len(region.polygons)
     shipped = spec.get("kind") == "shipped"
-    todo = only or ["masked", "eq", "incres", "nonfinite", "big", "shared", "filter"]
+    todo = only or ["masked", "eq", "incres", "nonfinite", "big", "shared", "aftershock", "filter"]
 
     def guarded(name, fn):
         # a crash while reading an implementation output is a missed detection: report it with the case as replay
@@ -978,6 +1114,8 @@ def check_ops(run, drv, pending, spec, base, region, cells, flags, orc, rng, pts
     if "shared" in todo:
         guarded("shared_session", lambda: check_shared_session(run, drv, pending, base, spec, region, cells, flags, orc, pts, ans,
                                                                exact_only, orng, seed))
+    if "aftershock" in todo and not shipped and len(set(cells)) == len(cells) and spec.get("mask") is None:
+        guarded("aftershock_region", lambda: check_aftershock(run, base, region, cells, seed))
     if "filter" in todo:
         guarded("filter_spatial", lambda: check_filter_sessions(run, drv, pending, base, spec, region, cells, flags, orc, pts, ans,
                                                                 exact_only, orng, seed))
